@@ -679,3 +679,193 @@ RULES = {
     "LRU": Rule("G3-lru", rule_lru, 20, "memoised functions are pure; memoised methods read only fields that the analysis phase never mutates", mut_lru),
     "FLAG": Rule("G3-flag-refresh", rule_class_flag_refresh, 1, "the class-level exact_func_moments flag is rewritten from settings on every path of normalize_program", mut_class_flag_refresh),
 }
+
+
+# ------------------------------------------------------------------ set iteration order (hash seed)
+SET_ATTRS = {"free_symbols", "variables", "symbols", "original_variables", "effective_variables", "defective_variables",
+             "program_variables", "artificial_variables", "gen_sol_unknowns_set", "dep_vars"}
+SET_METHODS = {"get_free_symbols", "get_support", "difference", "union", "intersection", "symmetric_difference", "copy_set",
+               "get_dependent_variables", "get_reachable_variables", "get_defective_nodes"}
+ORDER_FREE_WRAPPERS = {"set", "frozenset", "sum", "any", "all", "sorted", "min", "max", "len", "prod", "Add", "Mul", "dict"}
+ORDER_TAKERS = {"list", "tuple", "enumerate", "zip", "iter", "next", "Matrix", "join", "reversed"}
+
+# reviewed order-sensitive consumers of a set: key -> reason it cannot change a reported result
+REVIEWED_SET_ORDER = {
+    "recurrences/rec_builder.py::RecBuilder.get_recurrences::to_process.pop": "worklist of symengine monomials (seed-independent hash); every monomial is processed, solutions are per monomial",
+    "recurrences/diff_rec_builder.py::DiffRecBuilder.get_recurrences::to_process.pop": "same worklist shape as RecBuilder",
+    "program/condition/atom_cond.py::Atom.get_normalized::valid_values.pop": "set of symengine numbers; the result is a disjunction of equalities, commutative in meaning",
+    "program/condition/atom_cond.py::Atom.get_normalized::for:valid_values": "same disjunction",
+    "utils/expressions.py::is_solvable::enumerate:program.variables": "index map and get_terms_with_vars enumerate the same set object in the same call",
+    "unsolvable_analysis/solvability_checker.py::SolvabilityChecker._get_infinite_var_power::enumerate:program.variables": "same index map idiom within one call",
+    "unsolvable_analysis/solvability_checker.py::SolvabilityChecker._get_dependency_graph::enumerate:program.variables": "same index map idiom within one call",
+    "cli/actions/goals_action.py::GoalsAction.parse_goals::listcomp:self.program.original_variables": "order of default goals only changes the order of printed results (symengine symbols)",
+    "program/transformer/update_info_transformer.py::UpdateInfoTransformer._set_dependencies::call:combinations": "pairs are treated symmetrically",
+    "invariants/lattice_ideal.py::LatticeIdeal.compute_basis::list:inverse_symbols": "order among the *eliminated* symbols does not change the reduced basis of the elimination ideal",
+    "cli/actions/synth_solv_loop_action.py::SynthSolvLoopAction.__call__::for:program.defective_variables": "symengine symbols (seed-independent hash); candidate order only permutes template coefficients",
+    "cli/actions/synth_unsolv_inv_action.py::SynthUnsolvInvAction.__call__::for:program.defective_variables": "symengine symbols (seed-independent hash); candidate order only permutes template coefficients",
+    "program/condition/atom_cond.py::Atom.to_arithm::listcomp:var_type.values": "factors of a product (commutative)",
+    "program/transformer/constants_transformer.py::ConstantsTransformer.execute::for:other_constants": "appends independent `c = c` assignments; their relative order has no meaning",
+    "utils/expressions.py::get_terms_with_vars::iter:part.free_symbols": "a factor of an expanded monomial has exactly one free symbol",
+}
+
+
+def _is_set_expr(e, defs: Defs, depth=0) -> bool:
+    if depth > 4 or e is None:
+        return False
+    if isinstance(e, (ast.Set, ast.SetComp)):
+        return True
+    if isinstance(e, ast.Call):
+        cn = call_name(e)
+        if isinstance(e.func, ast.Name) and cn in ("set", "frozenset"):
+            return True
+        if isinstance(e.func, ast.Attribute) and cn in SET_METHODS:
+            return True
+        if isinstance(e.func, ast.Name) and cn in _SET_RETURNING:
+            return True
+        return False
+    if isinstance(e, ast.Attribute):
+        return e.attr in SET_ATTRS or (e.attr == "values" and "type" in src(e.value).lower())
+    if isinstance(e, ast.BinOp) and isinstance(e.op, (ast.BitOr, ast.BitAnd, ast.Sub)):
+        return _is_set_expr(e.left, defs, depth + 1) or _is_set_expr(e.right, defs, depth + 1)
+    if isinstance(e, ast.Name) and e.id in defs.defs and e.id not in defs.params:
+        vals = [v for v in defs.defs[e.id] if isinstance(v, ast.expr)]
+        # container growth (x.add(v)) registers v as a "def": look only at whole-value bindings
+        whole = []
+        for v, site in zip(defs.defs[e.id], defs.def_sites.get(e.id, [])):
+            if isinstance(site, (ast.Assign, ast.AnnAssign)) and isinstance(v, ast.expr):
+                whole.append(v)
+        return bool(whole) and all(_is_set_expr(v, defs, depth + 1) for v in whole)
+    return False
+
+
+def _body_order_sensitive(body_nodes) -> Optional[str]:
+    for st in body_nodes:
+        for n in ast.walk(st):
+            if isinstance(n, ast.Call):
+                cn = call_name(n)
+                if cn in ("append", "insert", "extend", "appendleft", "put", "write"):
+                    return f".{cn}("
+                if cn in ("get_unique_var", "get_unique_name"):
+                    return f"{cn}() in the loop body"
+            if isinstance(n, ast.AugAssign) and isinstance(n.op, ast.Add) and isinstance(n.value, (ast.List, ast.JoinedStr, ast.Constant)) \
+                    and not (isinstance(n.value, ast.Constant) and isinstance(n.value.value, (int, float))):
+                return "sequence/text accumulation"
+            if isinstance(n, ast.Return) and n.value is not None and not (isinstance(n.value, ast.Constant)):
+                return "first-match return"
+            if isinstance(n, ast.Break):
+                return "first-match break"
+    return None
+
+
+_SET_RETURNING: Set[str] = set()
+
+
+def rule_set_order(repo: Repo) -> List[Ob]:
+    obs = []
+    _SET_RETURNING.clear()
+    for g in repo.functions:
+        if g.cls is None:
+            rets = [r.value for r in walk_no_nested(g.node) if isinstance(r, ast.Return) and r.value is not None]
+            if rets and all(isinstance(r, (ast.Set, ast.SetComp)) or (isinstance(r, ast.Call) and isinstance(r.func, ast.Name) and r.func.id in ("set", "frozenset")) for r in rets):
+                _SET_RETURNING.add(g.name)
+    found: Dict[str, Tuple[str, int, str, str]] = {}
+    for f in repo.functions:
+        if f.relpath.startswith(("plots/", "simulation/")):
+            continue
+        defs = None
+        for n in walk_no_nested(f.node):
+            site = None
+            if isinstance(n, ast.For):
+                it = n.iter
+                kind = "for"
+                inner = it
+                if isinstance(it, ast.Call) and call_name(it) in ("enumerate", "zip", "reversed", "list", "tuple") and it.args:
+                    inner = it.args[0]
+                    kind = call_name(it)
+                if defs is None:
+                    defs = Defs(f.node, f.params()[0] if f.params() else None)
+                if _is_set_expr(inner, defs):
+                    why = "positions from enumerate" if kind == "enumerate" else _body_order_sensitive(n.body)
+                    if why:
+                        site = (f"{kind}:{src(inner)}", n.lineno, why)
+            elif isinstance(n, (ast.ListComp, ast.GeneratorExp, ast.DictComp)):
+                if defs is None:
+                    defs = Defs(f.node, f.params()[0] if f.params() else None)
+                g = n.generators[0]
+                inner = g.iter
+                kind = "listcomp"
+                if isinstance(inner, ast.Call) and call_name(inner) in ("enumerate", "zip", "list", "tuple") and inner.args:
+                    kind = call_name(inner)
+                    inner = inner.args[0]
+                if _is_set_expr(inner, defs):
+                    p = parent(n)
+                    wrapped = isinstance(p, ast.Call) and call_name(p) in ORDER_FREE_WRAPPERS
+                    if isinstance(n, ast.DictComp) and kind != "enumerate":
+                        wrapped = True
+                    if isinstance(n, ast.GeneratorExp) and isinstance(p, ast.Call) and call_name(p) in ORDER_FREE_WRAPPERS:
+                        wrapped = True
+                    if not wrapped or kind == "enumerate":
+                        site = (f"{kind}:{src(inner)}", n.lineno, "ordered result built from a set")
+            elif isinstance(n, ast.Call):
+                cn = call_name(n)
+                if defs is None:
+                    defs = Defs(f.node, f.params()[0] if f.params() else None)
+                if cn == "pop" and isinstance(n.func, ast.Attribute) and not n.args and _is_set_expr(n.func.value, defs):
+                    site = (f"{src(n.func.value)}.pop", n.lineno, "arbitrary element taken")
+                elif isinstance(n.func, ast.Name) and cn in ("list", "tuple", "next", "iter") and n.args and _is_set_expr(n.args[0], defs) \
+                        and not (isinstance(parent(n), ast.Call) and call_name(parent(n)) in ORDER_FREE_WRAPPERS) \
+                        and not isinstance(parent(n), (ast.For, ast.comprehension)):
+                    site = (f"{cn}:{src(n.args[0])}", n.lineno, "ordered copy of a set")
+                elif cn in ("combinations", "permutations", "product") and n.args and _is_set_expr(n.args[0], defs):
+                    site = (f"call:{cn}", n.lineno, "ordered tuples of a set")
+                elif cn == "join" and n.args and _is_set_expr(n.args[0], defs):
+                    site = (f"join:{src(n.args[0])}", n.lineno, "text built in set order")
+            if site:
+                key = f"{f.relpath}::{f.qualname}::{site[0]}"
+                found[key] = (f.relpath, site[1], f.qualname, site[2])
+    for key, (rp, line, qn, why) in sorted(found.items()):
+        reason = REVIEWED_SET_ORDER.get(key)
+        obs.append(Ob("G3-set-order", key, rp, line, qn, reason is not None,
+                      f"order-sensitive use of a set ({why}) -- reviewed: {reason}" if reason else
+                      f"order-sensitive use of a set ({why}): the iteration order of a set of strings / sympy objects depends on PYTHONHASHSEED, "
+                      "so a reported result may depend on the hash seed; not in the reviewed table"))
+    return obs
+
+
+def mut_set_order(repo: Repo) -> List[Mutant]:
+    out = []
+
+    def names_from_set(tree):
+        fn = find_def(tree, "StructureTransformer.program")
+        if fn is None:
+            return False
+        fn.body.insert(0, ast.parse("ordered = [v for v in self.program_variables]").body[0])
+        return True
+    ov = mutate_module(repo, "inputparser/structure_transformer.py", names_from_set)
+    if ov:
+        out.append(Mutant("list-from-string-set", ov, "fire", "StructureTransformer.program::listcomp:self.program_variables", control=True))
+
+    def fresh_names_in_set_loop(tree):
+        fn = find_def(tree, "ConstantsTransformer.execute")
+        if fn is None:
+            return False
+        fn.body.insert(1, ast.parse("for v in program.variables:\n    fresh.append(get_unique_var())").body[0])
+        fn.body.insert(1, ast.parse("fresh = []").body[0])
+        return True
+    ov = mutate_module(repo, "program/transformer/constants_transformer.py", fresh_names_in_set_loop)
+    if ov:
+        out.append(Mutant("fresh-names-in-set-order", ov, "fire", "ConstantsTransformer.execute::for:program.variables"))
+
+    def benign_sorted(tree):
+        fn = find_def(tree, "StructureTransformer.program")
+        if fn is None:
+            return False
+        fn.body.insert(0, ast.parse("ordered = sorted([v for v in self.program_variables])").body[0])
+        return True
+    ov = mutate_module(repo, "inputparser/structure_transformer.py", benign_sorted)
+    if ov:
+        out.append(Mutant("benign-sorted-copy", ov, "silent"))
+    return out
+
+
+RULES["SETORDER"] = Rule("G3-set-order", rule_set_order, 8, "every order-sensitive consumer of a set (pop, enumerate, list/tuple copy, append/first-match in a loop over a set) is in the reviewed table", mut_set_order)
